@@ -2808,6 +2808,11 @@ class GraphEmbed(Decomposition):
                 rtol=0,
             )
 
+    def merge(self, other):
+        # the squeezers and the interferometer of an embedding are not linear in the adjacency
+        # matrix: two embeddings in a row are not the embedding of the matrix product
+        raise MergeFailure("Graph embeddings cannot be merged.")
+
     def _decompose(self, reg, **kwargs):
         cmds = []
 
